@@ -124,6 +124,22 @@ def _cross_task(qts):
         all_qts = [q for q in db.GetQuantityTypes() if db.GetDefaultCategory(db.GetBaseUnit(q))]
         reps = {q: Scalar(1.0, db.GetBaseUnit(q)) for q in all_qts}
         freps = {q: FractionScalar(1.0, db.GetBaseUnit(q)) for q in all_qts}
+        if "length" in qts:
+            # a derived quantity whose unit string coincides with a table unit of another quantity type
+            # (m.m vs the area unit 'm2'): the quantity types differ, so ordering them raises as well
+            for label, mk_d, mk_t in (("m*m vs m2 (area)", lambda: Scalar(3.0, "m") * Scalar(2.0, "m"), lambda: Scalar(6.0, "m2")), ("m**3 vs m3 (volume)", lambda: Scalar(2.0, "m") ** 3, lambda: Scalar(8.0, "m3")),
+                                      ("m/s vs m/s (velocity)", lambda: Scalar(1.0, "m") / Scalar(1.0, "s"), lambda: Scalar(1.0, "m/s"))):
+                for swap in (False, True):
+                    for name, op in ORDER:
+                        part.count("evaluations")
+                        a, b = (mk_t(), mk_d()) if swap else (mk_d(), mk_t())
+                        try:
+                            r = op(a, b)
+                            part.violation("C08:cross-type-order-returned:derived vs table unit of the same text:%s:%s%s" % (label, name, " (swapped)" if swap else ""), {"returned": r, "a": repr(a), "b": repr(b)})
+                        except TypeError:
+                            pass
+                        except Exception as e:
+                            part.violation("C08:cross-type-order-wrong-exception:derived vs table unit of the same text:%s:%s" % (label, name), {"raised": repr(e)})
         for qa in qts:
             if qa not in reps:
                 continue
@@ -151,6 +167,7 @@ def zoo():
     z["Quantity simple other category"] = lambda: ObtainQuantity("m", "depth")
     z["Quantity direct constructor"] = lambda: Quantity("length", "m")
     z["Quantity derived"] = lambda: ObtainQuantity([("m", 2), ("s", -1)], ("length", "time"))
+    z["Quantity derived direct constructor"] = lambda: Quantity(OrderedDict([("length", ["m", 2]), ("time", ["s", -1])]), None)
     z["Quantity empty"] = lambda: Quantity.CreateEmpty()
     z["Quantity unknown"] = lambda: GetUnknownQuantity()
     z["Quantity unknown caption"] = lambda: GetUnknownQuantity("cap")
